@@ -1228,7 +1228,7 @@ func (x *Exec) doRange(st *State, fr *Frame, v *ssa.Range) {
 		mt := v.X.Type().Underlying().(*types.Map)
 		ks := sortOf(mt.Key())
 		vs := arraySort(ks, SBool)
-		name := "visited." + v.Name()
+		name := "visited." + v.Parent().String() + "." + v.Name()
 		st.ghost[name] = T{fmt.Sprintf("((as const %s) false)", vs), vs}
 		st.vals[v] = Val{T: m, typ: v.X.Type()}
 	default:
@@ -1245,7 +1245,7 @@ func (x *Exec) doNext(st *State, fr *Frame, v *ssa.Next) {
 	mtyp := rng.X.Type()
 	mt := mtyp.Underlying().(*types.Map)
 	ks := sortOf(mt.Key())
-	name := "visited." + rng.Name()
+	name := "visited." + rng.Parent().String() + "." + rng.Name()
 	visited := st.ghost[name]
 	dom := sel(st.mapDom(mtyp), m)
 	okv := fresh("next.ok", SBool)
